@@ -11,23 +11,31 @@ Model: `Model/GenOpts.lean` (`Config`, `genWith`, the mirrored `collect_reachabi
 Theorems
 * `C20_det`                 — `genWith` is a function of (options, ASTs).  The implementation's freedom
                               (hash seeds, separate processes) is exercised by the harness.
-* `C20_structure`           — options other than `pest_optimizer` change nothing but `boxed`.
-* `C20_box_transparent_*`   — `check`, `parse`, `tokens`, `tryParse*`, `tryCheck*` do not read `boxed`
-                              (it is only copied into `.rule` tags): verdict, cursor, stack, tracker and
-                              token tree are identical.
+* `C20_structure`, `C20_structure_gen`, `C20_default` — options other than `pest_optimizer` change nothing
+                              but `boxed`; every configuration is `gen` of the AST it walks, up to `boxed`.
+* `C20_box_transparent_check/parse/tokens`, `C20_box_transparent` — `check`, `parse`, `tokens`, `tryParse*`,
+                              `tryCheck*` do not read `boxed` (it is only copied into `.rule` tags): verdict,
+                              cursor, stack, tracker and token tree are identical.
 * `C20_options_transparent` — the two together, for every pair of configurations with the same
-                              `pest_optimizer`.
-* `C20_boxed_field`, `C20_ref_edges` — the `boxed` field of the generated rules is `isBoxed`; every rule
-                              type mentioned in a generated body is an edge of the analysed graph.
-* `C20_cycles_boxed`        — with `box_only_if_needed`, every cycle of the rule-reference graph (edges
-                              of `collect_used_rule`, implicit skip edges included) contains a boxed rule.
-                              Proved for the loop exactly as mirrored (bounded rounds + early `break`).
+                              `pest_optimizer`, every grammar, rule, input form and fuel.
+* `C20_boxed_field`, `C20_ref_edges`, `C20_edges` — the `boxed` field of the generated rules is `isBoxed`;
+                              every rule type mentioned in a generated body is an edge of the analysed
+                              graph; the edges are the identifiers of the body plus the implicit skip rules.
+* `C20_cycles_boxed`        — every cycle of the rule-reference graph (edges of `collect_used_rule`,
+                              implicit skip edges included) contains a boxed rule, under every
+                              configuration.  Proved for the loop exactly as mirrored (at most `rules.len()`
+                              rounds + early `break`): both exits are covered, nothing is assumed.
 * `C20_not_boxed_acyclic`   — equivalent form: no cycle runs through un-boxed rules only.
 * `C20_notboxed_may_lie_on_cycle` — the stronger reading "an un-boxed rule lies on no cycle" is false
-                              (graph.rs's own unit test: `b` stays un-boxed on the cycle a → b → c → a).
-* `pest_optimizer`: pest_meta's optimizer is external and NOT semantics preserving on the typed
-  model; see the second half of the file (`C20_counterexample_lister`,
-  `C20_counterexample_reponce_skip`, per-pass results, `C20_raw_eq_opt_partial`).
+                              (graph.rs's own unit test: `b` stays un-boxed on the cycle a → b → c → a);
+                              harmless, one boxed rule per cycle is what finiteness of the types needs.
+* `pest_optimizer` (second half of the file): pest_meta's optimizer is external and NOT semantics
+  preserving on the typed parser — `C20_counterexample_lister`, `C20_counterexample_reponce_skip`,
+  `C20_counterexample_minmax_inverted` (findings F-OPT-1, F-OPT-3, F-OPT-4).  Proved for the passes that are: `C20_pass_restore_root`,
+  `C20_pass_rotate_concatenate_sim/node` (simulation, any context), and `C20_raw_eq_opt_partial(')`
+  whose hypothesis `GRelStar (gen raw) (gen optimized)` is what excludes the findings
+  (`C20_lister_not_GRelStar`, `C20_reponce_not_GRelStar`).
+"Recursive grammars still compile" is validated by rustc on the corpus (checks/c20.py), not proved.
 -/
 import PestTyped.Lemmas.GenOptsLemmas
 import PestTyped.Lemmas.CheckParse
@@ -216,6 +224,19 @@ theorem C20_boxed_field (cfg : Config) (g : PGrammar) (k : Nat) (ru : PRule) (h 
     ((genOn cfg g).rule? (k+1)).map (·.boxed) = some (isBoxed cfg g ru.name) := by
   simp only [genOn, NodeGrammar.rule?, List.getElem?_cons_succ, List.getElem?_map, h, Option.map_some,
     genRuleWith]
+
+/-- The analysed graph covers the generated types: every rule struct mentioned in the type
+expression generated for rule `ru` is `EOI` (rule 0, a leaf) or the struct of a rule named by an
+identifier of `ru`'s body, i.e. the target of an edge `ru.name → name`; and the skip type mentioned by
+every sequence / repetition refers to `WHITESPACE` / `COMMENT` only. -/
+theorem C20_ref_edges (g : PGrammar) (ru : PRule) (hru : ru ∈ g) (k : RuleId)
+    (hk : k ∈ (genRule g ru).body.refs) :
+    k = 0 ∨ ∃ name, refEdge g ru.name name ∧ g.indexOf name = some (k - 1) ∧ 0 < k := by
+  rcases (genExpr_refs g (atomFlag (kindAtomicity ru.kind)) ru.expr).1 k hk with h0 | ⟨name, hn, hi, hp⟩
+  · exact Or.inl h0
+  · refine Or.inr ⟨name, ⟨ru, hru, rfl, ?_⟩, hi, hp⟩
+    unfold usedNames
+    exact List.mem_append.mpr (Or.inr hn)
 
 /-- No cycle of the reference graph runs through un-boxed rules only. -/
 theorem C20_not_boxed_acyclic (g : PGrammar) (r : String) (l : List String)
@@ -413,10 +434,9 @@ theorem C20_counterexample_lister :
   have h1 : genWith {} c20ListerOpt c20ListerRaw = c20ListerOptNG := by
     rw [C20_default, c20Lister_gen_opt]
   have h2 : genWith { pest_optimizer := false } c20ListerOpt c20ListerRaw = c20ListerRawNG := by
-    show genOn _ c20ListerRaw = _
-    rw [show ({ pest_optimizer := false } : Config) = { ({} : Config) with pest_optimizer := false } from rfl]
     have : genOn { pest_optimizer := false } c20ListerRaw = gen c20ListerRaw := by
       simp only [genOn, gen]; congr 1
+    show genOn _ c20ListerRaw = _
     rw [this, c20Lister_gen_raw]
   rw [h1, h2]
   decide
@@ -469,6 +489,46 @@ theorem C20_counterexample_reponce_skip :
   decide
 
 
+/-- F-OPT-4 (found while building this check).  `r2 = { "a"{3,1} }` — pest_meta accepts a counted
+repetition with MIN > MAX; un-optimized AST … -/
+def c20InvRaw : PGrammar := [{ name := "r2", kind := .normal, expr := .repMinMax (.str ['a']) 3 1 }]
+/-- … and after `unroller::unroll`, which emits one copy of `e` per `i ∈ 1..=MAX` (mandatory while
+`i ≤ MIN`): exactly MAX copies, here just `"a"`. -/
+def c20InvOpt : PGrammar := [{ name := "r2", kind := .normal, expr := .str ['a'] }]
+
+def c20InvRawNG : NodeGrammar :=
+  { rules := [eoiDef,
+      { name := "r2", atom := .inherited, emit := .both, boxed := true, body := .rep .inh 3 (some 1) (.str ['a']) }],
+    skipped := .empty }
+def c20InvOptNG : NodeGrammar :=
+  { rules := [eoiDef,
+      { name := "r2", atom := .inherited, emit := .both, boxed := true, body := .str ['a'] }],
+    skipped := .empty }
+
+theorem c20Inv_gen_raw : gen c20InvRaw = c20InvRawNG := by
+  simp [gen, genRule, genExpr, genSkipped, PGrammar.indexOf, PGrammar.indexOf.go,
+    c20InvRaw, c20InvRawNG, kindAtomicity, kindEmission, atomFlag]
+theorem c20Inv_gen_opt : gen c20InvOpt = c20InvOptNG := by
+  simp [gen, genRule, genExpr, genSkipped, PGrammar.indexOf, PGrammar.indexOf.go,
+    c20InvOpt, c20InvOptNG, kindAtomicity, kindEmission, atomFlag]
+
+/-- On `a` the default parser accepts one character (pest's meaning of `e{3,1}` is "exactly one `e`"),
+the `pest_optimizer = false` parser fails (`RepMinMax<_, 3, 1>` can never reach MIN; property C19). -/
+theorem C20_counterexample_minmax_inverted :
+    (tryParsePartial (genWith {} c20InvOpt c20InvRaw) (fun _ _ => false) 20 1 (c20Inp ['a'])).verdict
+      = some (some 1) ∧
+    (tryParsePartial (genWith { pest_optimizer := false } c20InvOpt c20InvRaw) (fun _ _ => false) 20 1
+      (c20Inp ['a'])).verdict = some none := by
+  have h1 : genWith {} c20InvOpt c20InvRaw = c20InvOptNG := by
+    rw [C20_default, c20Inv_gen_opt]
+  have h2 : genWith { pest_optimizer := false } c20InvOpt c20InvRaw = c20InvRawNG := by
+    have : genOn { pest_optimizer := false } c20InvRaw = gen c20InvRaw := by
+      simp only [genOn, gen]; congr 1
+    show genOn _ c20InvRaw = _
+    rw [this, c20Inv_gen_raw]
+  rw [h1, h2]
+  decide
+
 /-! ## the passes that ARE semantics preserving on the typed parser
 
 pest_meta's `optimize` = `rotate ; skip ; unroll ; concatenate ; factor ; list` then `restore_on_err`.
@@ -486,7 +546,8 @@ What the generator does with their output, and what is proved here:
   is the simulation theorem: with the same fuel, whenever the un-rewritten parser answers, the
   rewritten one gives the same verdict, cursor, stack, tracker and token tree.
 * `unroll` (`e+ ⇒ e ~ e*`, `e{n,m} ⇒ e ~ … ~ e? …`) — NOT preserving when skip rules exist
-  (`C20_counterexample_reponce_skip`); `list` — NOT preserving (`C20_counterexample_lister`).
+  (`C20_counterexample_reponce_skip`) nor for `e{n,m}` with n > m (`C20_counterexample_minmax_inverted`);
+  `list` — NOT preserving (`C20_counterexample_lister`).
 * `factor`, `skip`, `unroll` without skip rules, `concatenate` of `^"a" ~ ^"b"`: no theorem here (the
   harness replays every pass on the corpus: none of them changed a model answer; see evidence).
 
